@@ -1,4 +1,9 @@
 P = __file__.rsplit("/units/", 1)[0] + "/prelude/"
+CLAUSE_SURV = """    surv_sum(old(strat)@, thresh, old(strat)@.len() as int) > 0real ==>
+        (forall|i: int| 0 <= i < old(strat)@.len() ==> rv(#[trigger] final(strat)@[i]) ==
+            (if rv(old(strat)@[i]) > rv(thresh) { rv(old(strat)@[i]) / surv_sum(old(strat)@, thresh, old(strat)@.len() as int) } else { 0real }))
+        && rsum(final(strat)@, old(strat)@.len() as int) == 1real"""
+CLAUSE_FLAT = """    !(surv_sum(old(strat)@, thresh, old(strat)@.len() as int) > 0real) ==> final(strat)@ == old(strat)@"""
 UNIT = dict(
     id="c18_truncate_sums_to_one",
     prelude=["floats.rs", "ideal.rs", "iter_ext.rs", "iter_ext_ideal.rs"],
@@ -45,12 +50,9 @@ pub proof fn lemma_surv_div(a: Seq<f64>, b: Seq<f64>, h: f64, t: real, k: int)
     final(strat)@.len() == old(strat)@.len(),
     // some action exceeds h (with positive mass): exactly those actions survive, rescaled
     // proportionally, and the infoset sums to one
-    surv_sum(old(strat)@, thresh, old(strat)@.len() as int) > 0real ==>
-        (forall|i: int| 0 <= i < old(strat)@.len() ==> rv(#[trigger] final(strat)@[i]) ==
-            (if rv(old(strat)@[i]) > rv(thresh) { rv(old(strat)@[i]) / surv_sum(old(strat)@, thresh, old(strat)@.len() as int) } else { 0real }))
-        && rsum(final(strat)@, old(strat)@.len() as int) == 1real, // @ob C18.V.truncate.sums_to_one
+""" + CLAUSE_SURV + """, // @ob C18.V.truncate.sums_to_one
     // no action exceeds h: the infoset keeps its distribution
-    !(surv_sum(old(strat)@, thresh, old(strat)@.len() as int) > 0real) ==> final(strat)@ == old(strat)@, // @ob C18.V.truncate.flat_infoset_unchanged""",
+""" + CLAUSE_FLAT + """, // @ob C18.V.truncate.flat_infoset_unchanged""",
              entry="broadcast use fl; broadcast use ideal;\nproof { ax_obeys(); ax_rv_lits(); }\nlet ghost s0 = strat@;\nlet ghost n = strat@.len();",
              loops={0: dict(kind="for", binder="it",
                             head="""invariant
@@ -68,5 +70,83 @@ ensures
     assert(surv_sum(s0, thresh, n as int) / rv(total) == 1real) by(nonlinear_arith) requires rv(total) == surv_sum(s0, thresh, n as int), rv(total) > 0real;
 }""")},
         ),
+
+        # "truncating twice equals truncating once" as a lemma over the contract above: `post` is the
+        # postcondition's own text (same Python template, instantiated for a pair of sequences)
+        dict(raw="""
+pub open spec fn post(a: Seq<f64>, thresh: f64, b: Seq<f64>) -> bool {
+    b.len() == a.len()
+    && (""" + CLAUSE_SURV.replace("old(strat)@", "a").replace("final(strat)@", "b") + """)
+    && (""" + CLAUSE_FLAT.replace("old(strat)@", "a").replace("final(strat)@", "b") + """)
+}
+pub open spec fn dist(a: Seq<f64>) -> bool {
+    (forall|i: int| 0 <= i < a.len() ==> rv(#[trigger] a[i]) >= 0real) && rsum(a, a.len() as int) == 1real
+}
+pub proof fn lemma_surv_le(a: Seq<f64>, h: f64, k: int)
+    requires 0 <= k <= a.len(), forall|i: int| 0 <= i < a.len() ==> rv(#[trigger] a[i]) >= 0real,
+    ensures 0real <= surv_sum(a, h, k) <= rsum(a, k),
+    decreases k
+{ if k > 0 { lemma_surv_le(a, h, k - 1); } }
+// b's survivors are a's survivors, each divided by S
+pub proof fn lemma_surv_again(a: Seq<f64>, b: Seq<f64>, h: f64, s: real, k: int)
+    requires 0 <= k <= a.len(), a.len() == b.len(), 0real < s <= 1real,
+        forall|i: int| 0 <= i < a.len() ==> rv(#[trigger] a[i]) >= 0real,
+        forall|i: int| 0 <= i < a.len() ==> rv(#[trigger] b[i]) == (if rv(a[i]) > rv(h) { rv(a[i]) / s } else { 0real }),
+    ensures surv_sum(b, h, k) == surv_sum(a, h, k) / s,
+        forall|i: int| 0 <= i < a.len() ==> ((rv(#[trigger] b[i]) > rv(h)) == (rv(a[i]) > rv(h))) || (rv(b[i]) == 0real && rv(a[i]) == 0real),
+    decreases k
+{
+    assert forall|i: int| 0 <= i < a.len() implies ((rv(#[trigger] b[i]) > rv(h)) == (rv(a[i]) > rv(h))) || (rv(b[i]) == 0real && rv(a[i]) == 0real) by {
+        let x = rv(a[i]);
+        if x > rv(h) {
+            assert(x / s >= x) by(nonlinear_arith) requires 0real < s <= 1real, x >= 0real;
+        } else if rv(h) < 0real {
+            // x >= 0 > h contradicts !(x > h)
+        } else {
+            // b[i] == 0 <= h: not a survivor either
+        }
+    }
+    if k <= 0 {
+        assert(0real / s == 0real) by(nonlinear_arith) requires s != 0real;
+    } else {
+        lemma_surv_again(a, b, h, s, k - 1);
+        let x = rv(a[k - 1]);
+        let xa = if x > rv(h) { x } else { 0real };
+        let xb = if rv(b[k - 1]) > rv(h) { rv(b[k - 1]) } else { 0real };
+        assert(xb == xa / s) by {
+            assert(0real / s == 0real) by(nonlinear_arith) requires s != 0real;
+            if x > rv(h) { assert(x / s >= x) by(nonlinear_arith) requires 0real < s <= 1real, x >= 0real; }
+        }
+        assert(surv_sum(a, h, k - 1) / s + xa / s == (surv_sum(a, h, k - 1) + xa) / s) by(nonlinear_arith) requires s != 0real;
+    }
+}
+pub proof fn lemma_truncate_idempotent(a: Seq<f64>, b: Seq<f64>, c: Seq<f64>, thresh: f64)
+    requires dist(a), post(a, thresh, b), post(b, thresh, c),
+    ensures
+        // truncating the truncated infoset again changes nothing (idealised reals)
+        c.len() == b.len() && forall|i: int| 0 <= i < b.len() ==> rv(#[trigger] c[i]) == rv(b[i]), // @ob C18.V.truncate.idempotent
+{
+    let n = a.len() as int;
+    let s = surv_sum(a, thresh, n);
+    lemma_surv_le(a, thresh, n);
+    if s > 0real {
+        lemma_surv_again(a, b, thresh, s, n);
+        assert(s / s == 1real) by(nonlinear_arith) requires s > 0real;
+        assert(surv_sum(b, thresh, n) == 1real);
+        assert forall|i: int| 0 <= i < n implies rv(#[trigger] c[i]) == rv(b[i]) by {
+            let y = rv(b[i]);
+            assert(y / 1real == y) by(nonlinear_arith);
+            if y > rv(thresh) { } else {
+                // not a survivor of the second pass: it was 0 already, or it is a survivor of the first whose
+                // quotient does not exceed h -- excluded by lemma_surv_again
+                assert(((rv(b[i]) > rv(thresh)) == (rv(a[i]) > rv(thresh))) || (rv(b[i]) == 0real && rv(a[i]) == 0real));
+            }
+        }
+    } else {
+        assert(b == a);
+        assert(c == b);
+    }
+}
+"""),
     ],
 )
